@@ -36,34 +36,30 @@ let report h h' g inputs root names =
 
 let cmd_topology (x : sx) : sx =
   match x with
-  | L [fixed; h; coords; cia; conns; dts; fv; si; inputs] ->
+  | L [h; coords; conns; dts; fv; si; inputs] ->
       let h = heap_of_sx h in
       let coords = list_of_sx (function L [n; ia; i] -> (z_of_sx n, (bool_of_sx ia, nat_of_sx i)) | _ -> failwith "coords") coords in
       let conns = list_of_sx (pair_of_sx z_of_sx nat_of_sx) conns in
-      let f = if bool_of_sx fixed then c19_from_topology_fixed else c19_from_topology in
-      (match f h coords (bool_of_sx cia) conns (bool_of_sx dts) (opt_z_of_sx fv) (z_of_sx si) with
-       | None -> L [A "RAISES"]
-       | Some (h', g) ->
-           report h h' g (inputs_of_sx inputs) (nat_of_int (-1 + 0)) (List.map fst conns @ List.map fst coords))
-  | _ -> failwith "topology: (fixed heap coords conn_is_array conns dtype_std fv si inputs)"
+      let (h', g) = c19_from_topology h coords conns (bool_of_sx dts) (opt_z_of_sx fv) (z_of_sx si) in
+      report h h' g (inputs_of_sx inputs) (nat_of_int 0) (List.map fst conns @ List.map fst coords)
+  | _ -> failwith "topology: (heap coords conns dtype_std fv si inputs)"
 
 let cmd_ugrid (x : sx) : sx =
   match x with
-  | L [fixed; h; d; names; dts; inputs] ->
+  | L [h; d; names; dts; inputs] ->
       let h = heap_of_sx h and d = nat_of_sx d in
       let names = list_of_sx z_of_sx names in
-      let f = if bool_of_sx fixed then c19_read_ugrid_fixed else c19_read_ugrid in
-      let (h', g) = f h d names (bool_of_sx dts) in
+      let (h', g) = c19_read_ugrid h d names (bool_of_sx dts) in
       report h h' g (inputs_of_sx inputs) d names
-  | _ -> failwith "ugrid: (fixed heap d conn_names dtype_std inputs)"
+  | _ -> failwith "ugrid: (heap d conn_names dtype_std inputs)"
 
 let cmd_adopt (x : sx) : sx =
   match x with
-  | L [fixed; h; d; inputs; names] ->
+  | L [h; d; inputs; names] ->
       let h = heap_of_sx h and d = nat_of_sx d in
-      let (h', g) = (if bool_of_sx fixed then c19_grid_init_fixed else c19_grid_init) h d in
+      let (h', g) = c19_grid_init h d in
       report h h' g (inputs_of_sx inputs) d (list_of_sx z_of_sx names)
-  | _ -> failwith "adopt: (fixed heap d inputs names)"
+  | _ -> failwith "adopt: (heap d inputs names)"
 
 let cmd_table (x : sx) : sx =
   match x with
@@ -74,29 +70,28 @@ let cmd_table (x : sx) : sx =
       report h h' g (inputs_of_sx inputs) d []
   | _ -> failwith "table: (heap d format_id copy_gattrs over inputs)"
 
-(* copy experiment: variant (0 = as written, 1 = repaired), side (0: ops on the original, observe
-   the copy; 1: ops on the copy, observe the original).  Output: shares root?, observed side changed? *)
+(* copy experiment: side 0: ops on the original, observe the copy; 1: ops on the copy, observe the
+   original.  Output: shares root?, observed side changed?, equal at copy time *)
 let cmd_copy (x : sx) : sx =
   match x with
-  | L [variant; h; d; side; ops] ->
+  | L [h; d; side; ops] ->
       let h = heap_of_sx h and d = nat_of_sx d in
-      let (h1, c) = (if bool_of_sx variant then c19_copy_fixed else c19_copy_faithful) h d in
+      let (h1, c) = c19_copy h d in
       let ops = list_of_sx op_of_sx ops in
       let (m, o) = if bool_of_sx side then (c, d) else (d, c) in
       let before = c19_obs h1 o in
       let h2 = c19_run h1 m ops in
       L [sx_of_bool (c = d); sx_of_bool (c19_obs h2 o <> before); sx_of_bool (c19_obs h1 c = c19_obs h d)]
-  | _ -> failwith "copy: (variant heap d side ops)"
+  | _ -> failwith "copy: (heap d side ops)"
 
 (* to_xarray("ugrid") called ncalls times; ops applied to the last returned dataset.
    Output: returned root is the grid's, grid report changed by the edits, Variable objects shared,
    buffers shared *)
 let cmd_export_ugrid (x : sx) : sx =
   match x with
-  | L [variant; h; d; ncalls; ops] ->
+  | L [h; d; ncalls; ops] ->
       let h = heap_of_sx h and d = nat_of_sx d in
-      let f = if bool_of_sx variant then c19_to_xarray_ugrid_fixed else c19_to_xarray_ugrid in
-      let rec go h k = let (h', e) = f h d in if k <= 1 then (h', e) else go h' (k - 1) in
+      let rec go h k = let (h', e) = c19_to_xarray_ugrid h d in if k <= 1 then (h', e) else go h' (k - 1) in
       let (h1, e) = go h (int_of_sx ncalls) in
       let before = c19_obs h1 d in
       let h2 = c19_run h1 e (list_of_sx op_of_sx ops) in
@@ -104,7 +99,7 @@ let cmd_export_ugrid (x : sx) : sx =
       let shared_vars = List.exists (fun v -> List.mem v (vars_of d)) (vars_of e) in
       let shared_bufs = c19_alias_table h1 e (c19_ds_bufs h1 d) <> [] in
       L [sx_of_bool (e = d); sx_of_bool (c19_obs h2 d <> before); sx_of_bool shared_vars; sx_of_bool shared_bufs]
-  | _ -> failwith "export_ugrid: (variant heap d ncalls ops)"
+  | _ -> failwith "export_ugrid: (heap d ncalls ops)"
 
 let cmd_export_table (x : sx) : sx =
   match x with
